@@ -6,7 +6,7 @@ import vlib
 
 PRE = b"PRE-EXISTING TARGET, NOT WRITTEN BY XZ\n"
 FOREIGN = b"foreign\n"
-IOBUF = 8192
+IOBUF = 8192     # IO_BUFFER_SIZE; overwritten from Gen/C17.lean (regenerated from src/xz/file_io.h) on every run
 SIGS = {2: "INT", 15: "TERM", 1: "HUP", 13: "PIPE"}                 # delivered in every mode
 SIGS_ALL = {2: "INT", 15: "TERM", 1: "HUP", 13: "PIPE", 24: "XCPU", 25: "XFSZ"}   # every signal xz hooks (signals.c)
 RETRY = (4, 11)
@@ -282,14 +282,16 @@ def canon(res, mode):
                 own_ino[cur] = r["ino"]
             if op == "unlink" and role == "DST" and ok:
                 pre_gone.add(cur)
+        b = r.get("blk")
+        s += " B?" if b is None else (" B1" if b == 0x3f else " B0" if b == 0 else " B?%x" % b)
         per[cur].append({"k": r["k"], "s": s, "op": op, "role": role, "req": r["a1"], "ret": r["ret"], "errno": r["errno"],
                          "ino": r["ino"], "inj": r["inj"], "blk": r.get("blk")})
     # resolve '?' inode classes: the target created by this run (when its fstat was faulted) or a foreign file
     for i, evs in enumerate(per):
         for e in evs:
-            if e["s"].endswith("?"):
+            if "ok? B" in e["s"]:
                 known_own = own_ino.get(i)
-                e["s"] = e["s"][:-1] + ("4" if known_own is not None else _classify_unknown(res, mode, i, e["ino"]))
+                e["s"] = e["s"].replace("ok? B", "ok%s B" % ("4" if known_own is not None else _classify_unknown(res, mode, i, e["ino"])))
     return per
 
 
